@@ -23,7 +23,7 @@ def problems(wd, tier, rng):
             items.append({"g": it["g"], "gid": f"A3-{gi}-d{di}", "qs": qs, "doms": [d], "orders": 1})
         for k in range(1 if q else 4):
             d2 = rng.sample(doms, 2)
-            items.append({"g": it["g"], "gid": f"A3-{gi}-p{k}", "qs": qs if not q else rng.sample(qs, 6), "doms": d2, "orders": 2})
+            items.append({"g": it["g"], "gid": f"A3-{gi}-p{k}", "qs": qs if not q else rng.sample(qs, 6), "doms": d2, "orders": 3})
     a4 = list(enumerate(g4["items"]))
     for gi, it in rng.sample(a4, 150 if q else 1500):
         doms = sorted([sorted(d[0]), sorted(d[1])] for d in it["doms"])
@@ -31,7 +31,7 @@ def problems(wd, tier, rng):
         items.append({"g": it["g"], "gid": f"A4-{gi}-none", "qs": rng.sample(qs, 12), "doms": [], "orders": 1})
         for k in range(3 if q else 6):
             nd = 1 + (k % 3 if not q else k % 2)
-            items.append({"g": it["g"], "gid": f"A4-{gi}-c{k}", "qs": rng.sample(qs, 10), "doms": rng.sample(doms, nd), "orders": 1})
+            items.append({"g": it["g"], "gid": f"A4-{gi}-c{k}", "qs": rng.sample(qs, 10), "doms": rng.sample(doms, nd), "orders": 2 if nd >= 2 else 1})
     return items, [g3, g4]
 
 
